@@ -181,7 +181,7 @@ CORPUS = [
 
 
 def oracle(ctx, nprog=None):
-    nprog = nprog or ctx.budget(16, 200)
+    nprog = nprog or ctx.budget(16, 110)
     progs = list(CORPUS) if not getattr(ctx, "_c02_corpus_done", False) else []
     ctx._c02_corpus_done = True
     for j in range(len(progs) + nprog):
